@@ -17,6 +17,9 @@ RULE = ("constructive random grammars (<=5 non-terminals, <=4 alternatives - 6-7
         "pools in generated order, productions declared top-down / bottom-up / shuffled, synonyms and keywords on/off, explicit or default start symbol, both smart_factorization "
         "settings for every case; per grammar 4-10 inputs of <=12 tokens: sampled sentences, one-token mutations and random "
         "token strings, rendered with generated blanks / newlines / comments / multi-line comments, as str or list of lines. "
+        "Part token_stream: a second tokenizer family with four keyword source types whose lexeme sets overlap (WORD, LABEL = "
+        "word before ':', ATWORD = word behind '@', NUM), 5 keyword sets x 4 synonym maps, texts of 1-12 pieces, grammar "
+        "S -> ITEM S | empty with one alternative per producible token name; leaves compared with an independent tokenizer. "
         "Non-trivial = a returned tree for a grammar that has a common-prefix group or a parse-table conflict; distinct by "
         "(grammar, names, tokens, setting).")
 ASSUMPTIONS = [
@@ -249,11 +252,96 @@ def st_case(draw, max_tokens=12):
                 lambda d: st.lists(st.integers(0, 9), min_size=6, max_size=6) if d == "shuffle" else st.just(d)))}
 
 
+def eval_token_stream(case):
+    """the leaves of the tree are exactly the non-skipped tokens, names and values: grammar S -> ITEM S | empty with one ITEM
+    alternative per token name the configuration can produce; the expected token list comes from vlib.grammar.ref_tokenize2"""
+    import ak.llparser as L
+    syn = dict(gk.TOK2_SYNONYMS[case["syn"] % len(gk.TOK2_SYNONYMS)])
+    kws = {k: v for k, v in gk.TOK2_KEYWORD_SETS[case["kw"] % len(gk.TOK2_KEYWORD_SETS)].items()}
+    # keywords are looked up by the name *after* synonyms were applied
+    kws = {(syn.get(n, n), v): k for (n, v), k in kws.items()}
+    names = []
+    for n, _ in gk.TOKENIZER2_GROUPS:
+        if n in ("SPACE", "COMMENT"):
+            continue
+        n2 = syn.get(n, n)
+        if n2 not in names:
+            names.append(n2)
+    for k in kws.values():
+        if k not in names:
+            names.append(k)
+    order = case["order"]
+    names = [n for _, n in sorted(zip((order * len(names))[:len(names)], names), key=lambda kv: kv[0])]
+    prods = {"S": [("ITEM", "S"), ()], "ITEM": [(n,) for n in names]}
+    text = case["text"]
+    f = []
+    classes = set(["token_stream"])
+    expected = gk.ref_tokenize2(text, syn, kws)
+    src = text.split("\n") if case.get("as_list") else text
+    evals = 0
+    nt = False
+    for smart in (True, False):
+        try:
+            parser = L.LLParser(gk.TOKENIZER2, productions=prods, synonyms=syn or None, keywords=kws or None, start_symbol_name="S",
+                                smart_factorization=smart)
+        except Exception as e:   # noqa
+            f.append(("token_stream_constructor_raises_" + type(e).__name__, f"syn={syn!r} kw={kws!r}: {e}"))
+            break
+        evals += 1
+        try:
+            root = parser.parse(src, do_cleanup=False)
+        except L.LexicalError:
+            if expected is not None:
+                f.append(("lexical_error_on_tokenizable_text", f"text={text!r}"))
+            classes.add("lexical_error")
+            continue
+        except Exception as e:   # noqa
+            f.append(("token_stream_parse_raises_" + type(e).__name__, f"text={text!r} syn={syn!r} kw={kws!r}: {e}"))
+            continue
+        if expected is None:
+            f.append(("untokenizable_text_accepted", f"text={text!r}"))
+            continue
+        toks = [(n, v) for n, v in expected if n not in ("SPACE", "COMMENT")]
+        conc = {"prods": {"S": [["ITEM", "S"], []], "ITEM": [[n] for n in names]}, "start": "S"}
+        ff = check_tree(root, conc, toks)
+        f.extend((b, d + f"; text={text!r} syn={syn!r} kw={kws!r}") for b, d in ff)
+        kw_names = set(kws.values())
+        srcs = {n for (n, _v) in kws}
+        if len(srcs) >= 2 and any(n in kw_names for n, _ in toks):
+            classes.add("keyword_with_several_source_types")
+            # a lexeme that is a keyword for one source type appears as a token of another type
+            vals = {v: n for (n, v) in kws}
+            if any(v in vals and n not in kw_names for n, v in toks):
+                classes.add("keyword_lexeme_as_token_of_other_type")
+                nt = True
+    return Outcome(nt, sorted(classes), f[:4], key=[text, case["syn"], case["kw"]], evals=evals,
+                   sample={"text": text, "synonyms": syn, "keywords": {"%s/%s" % k: v for k, v in kws.items()}})
+
+
+@st.composite
+def st_token_stream_case(draw):
+    words = ["if", "end", "do", "a", "iff", "If", "x_y", "done"]
+    nums = ["0", "007", "7", "42"]
+    piece = st.one_of(
+        st.sampled_from(words), st.sampled_from(words).map(lambda w: w + ":"), st.sampled_from(words).map(lambda w: "@" + w),
+        st.sampled_from(words).map(lambda w: "@" + w + ":"), st.sampled_from(nums), st.sampled_from([",", ";", "+", ":", "@"]),
+        st.sampled_from([" ", "  ", "\t", "\n", " # if end\n", "\n\n"]))
+    pieces = draw(st.lists(piece, min_size=1, max_size=12))
+    sep = draw(st.sampled_from([" ", " ", ""]))
+    text = sep.join(pieces)
+    if draw(st.integers(0, 9)) == 0:
+        text += draw(st.sampled_from(["$", "?", " ~"]))
+    return {"text": text, "syn": draw(st.integers(0, 3)), "kw": draw(st.integers(0, 4)),
+            "order": draw(st.lists(st.integers(0, 9), min_size=5, max_size=5)), "as_list": draw(st.booleans())}
+
+
 def parts(tier):
+    ts = Part("token_stream", eval_token_stream, strategy=st_token_stream_case, examples=4000 if tier == "quick" else 120000,
+              note="leaves vs an independent reference tokenizer; keyword source types with overlapping lexemes, synonyms")
     if tier == "quick":
-        return [Part("grammars", evaluate, strategy=st_case, examples=5000)]
+        return [Part("grammars", evaluate, strategy=st_case, examples=5000), ts]
     return [Part("grammars", evaluate, strategy=st_case, examples=120000),
-            Part("grammars_long_inputs", evaluate, strategy=lambda: st_case(max_tokens=16), examples=40000)]
+            Part("grammars_long_inputs", evaluate, strategy=lambda: st_case(max_tokens=16), examples=40000), ts]
 
 
 TECHNIQUE = "property-based testing (Hypothesis): constructive grammar generator + sentence sampler + layout renderer; every returned tree judged by a derivation-validity predicate against the user grammar and the rendered token list"
